@@ -156,7 +156,7 @@ add("C18", "e_netsim", "exploration",
 
 add("C09", "e_blackbox", "exploration",
     "runtime monitoring of the real binary over loopback sockets: exactly-once accounting per (socket, ID), framing rules, differential against the in-process resolver",
-    "The release `resolved` binary is started in authoritative-only mode and with recursion offered (forwarder on a closed port); 8 client threads, each owning its sockets and issuing strictly increasing IDs, send ~3*10^5 messages (quick): "
+    "The release `resolved` binary is started in authoritative-only mode and with recursion offered (forwarding to a small stateless fake forwarder on loopback); 8 client threads, each owning its sockets and issuing strictly increasing IDs, send ~3*10^5 messages (quick): "
     "zone questions (large RRsets, alias chains and loops, wildcards, delegation, NXDOMAIN, hosts, unanswerable) x 11 qtypes x RD, every qtype and 8 classes, QDCOUNT 0..3, 0..11-byte datagrams, all 65536 flag-octet values, generated messages incl. responses, random and mutated queries; "
     "over TCP additionally the maximal pointer chain, huge counts, 64 KiB messages and five framing variants. Every message must get exactly one reply (none for QR=1 / <2 bytes) with the rules of the statement checked from the bytes sent; UDP reply = TCP reply cut at 512 with TC; "
     "TCP prefix = length; sections, AA and RCODE = dns_resolver::resolve on the same files in process; answer-section structure; the process must stay up (liveness per chunk, exit status, stderr).",
